@@ -293,7 +293,50 @@ func runGio(c *Ctx) {
 				}
 			}
 			ok := len(gos) == 2
-			if ok {
+			// go fwd.run(); go rev.run(): the operands are the stream fields of the two receivers, as
+			// given in the composite literals they were built from
+			recvOperands := func(ev *core.Event) []ast.Expr {
+				sel, isSel := unparen(ev.Call.Fun).(*ast.SelectorExpr)
+				if !isSel || len(ev.Call.Args) != 0 {
+					return nil
+				}
+				rv := identVar(sel.X, ev.Frame)
+				if rv == nil {
+					return nil
+				}
+				var out []ast.Expr
+				for _, b := range p.Events {
+					if b.Kind != core.KAssign || b.FieldInit || identVar(b.Lhs, b.Frame) != rv || b.Rhs == nil {
+						continue
+					}
+					e := unparen(b.Rhs)
+					if u, isU := e.(*ast.UnaryExpr); isU && u.Op == token.AND {
+						e = unparen(u.X)
+					}
+					cl, isCL := e.(*ast.CompositeLit)
+					if !isCL {
+						continue
+					}
+					out = nil
+					for _, el := range cl.Elts {
+						v := el
+						if kv, isKV := el.(*ast.KeyValueExpr); isKV {
+							v = kv.Value
+						}
+						if t := b.Frame.Info().TypeOf(v); t != nil && hasMethod(t, "Close") {
+							out = append(out, v)
+						}
+					}
+				}
+				return out
+			}
+			if ok && len(goArgs(gos[0])) == 0 {
+				a0, a1 := recvOperands(gos[0]), recvOperands(gos[1])
+				ok = len(a0) == 2 && len(a1) == 2 &&
+					core.ExprString(a0[0]) == core.ExprString(a1[1]) &&
+					core.ExprString(a0[1]) == core.ExprString(a1[0]) &&
+					core.ExprString(a0[0]) != core.ExprString(a0[1])
+			} else if ok {
 				a0, a1 := goArgs(gos[0]), goArgs(gos[1])
 				ok = len(a0) >= 2 && len(a1) >= 2 &&
 					core.ExprString(a0[0]) == core.ExprString(a1[1]) &&
@@ -337,9 +380,35 @@ func runGio(c *Ctx) {
 					}
 				}
 			}
+			// … or, for a pump that is a method of a small struct (go fwd.run()), the struct's fields
+			if pm.decl != nil && len(streams) != 2 {
+				if rn := core.RecvNamed(pm.decl.Obj); rn != nil {
+					if st, ok := rn.Underlying().(*types.Struct); ok {
+						streams = nil
+						for fi := 0; fi < st.NumFields(); fi++ {
+							f := st.Field(fi)
+							if isCbType(f.Type()) {
+								cb = f
+							} else if hasMethod(f.Type(), "Close") {
+								streams = append(streams, f)
+							}
+						}
+					}
+				}
+			}
 			if len(streams) != 2 || cb == nil {
-				c.MissingAnchor("R13c", pname+": two stream parameters and a callback")
+				c.MissingAnchor("R13c", pname+": two stream operands (parameters or fields) and a callback")
 				continue
+			}
+			opVar := func(e ast.Expr, fr *core.Frame) *types.Var {
+				if fv := fieldVar(e, fr); fv != nil {
+					return fv
+				}
+				return identVar(e, fr)
+			}
+			cbTerm := c.Role(cb)
+			if cb.IsField() {
+				cbTerm = core.FieldName(cb)
 			}
 			c.Walk("R13c", &core.Config{Follow: samePkgFollow(d.Pkg.PkgPath)}, e, func(p *core.Path) {
 				g := prepare(c, p)
@@ -367,17 +436,17 @@ func runGio(c *Ctx) {
 					}
 					if (ev.Kind == core.KCall || ev.Kind == core.KEnter) && ev.Callee != nil && ev.Callee.Name() == "Close" {
 						if sel, ok := unparen(ev.Call.Fun).(*ast.SelectorExpr); ok {
-							if v := identVar(sel.X, ev.Frame); v != nil {
+							if v := opVar(sel.X, ev.Frame); v != nil {
 								closes[v]++
 							}
 						}
 					}
-					if ev.Kind == core.KCall && ev.Callee == nil && ev.Builtin == "" && identVar(ev.Call.Fun, ev.Frame) == cb {
+					if ev.Kind == core.KCall && ev.Callee == nil && ev.Builtin == "" && opVar(ev.Call.Fun, ev.Frame) == cb {
 						cbs++
-						a.requireGuard("R13c", pname+"/callback-non-nil", g, i, false, fnot(eq(c.Role(cb), "nil")), "calling the callback")
+						a.requireGuard("R13c", pname+"/callback-non-nil", g, i, false, fnot(eq(cbTerm, "nil")), "calling the callback")
 					}
 				}
-				cbNilKnown, _ := implies(g.litsBefore(len(p.Events), false), eq(c.Role(cb), "nil"))
+				cbNilKnown, _ := implies(g.litsBefore(len(p.Events), false), eq(cbTerm, "nil"))
 				if p.End == core.EndReturn {
 					ok := closes[streams[0]] == 1 && closes[streams[1]] == 1 && (cbs == 1 || cbs == 0 && cbNilKnown)
 					a.note("R13c", pname+"/close-both-and-call-back-once", entryPos(e), !ok, "every path closes both streams once and calls the callback once (when set)",
@@ -1031,10 +1100,14 @@ func runGqueue(c *Ctx) {
 		name := core.FuncName(d.Obj)
 		c.Walk("R10", &core.Config{Follow: samePkgFollow(d.Pkg.PkgPath)}, core.Entry{Decl: d}, func(p *core.Path) {
 			g := prepare(c, p)
-			var loaded *types.Var // local holding top.Load() of this iteration
-			loadIter, iter := -1, 0 // the stretch before the first loop trip is an attempt too (rotated loops)
-			linked := false   // Push: newNode.next = loaded in this iteration
-			readNext := false // Pop: next := loaded.next in this iteration
+			// an ATTEMPT is: a fresh load of top, (Push) the link of the node to that load, (Pop) the read
+			// of the loaded node's next, and the CAS against that load — in that order, with no other
+			// attempt's CAS in between. Where the loop boundaries fall (for{}, three-clause for, rotated
+			// loop, attempt helper) does not matter.
+			var loaded *types.Var // local holding the latest top.Load()
+			loadIdx, lastCas := -1, -1
+			linkIdx, nextIdx := -1, -1 // Push: newNode.next = loaded; Pop: next := loaded.next
+			iter := 0
 			casOK := false
 			// where a local's value came from when it was assigned from an inlined helper's result
 			type origin struct {
@@ -1057,7 +1130,10 @@ func runGqueue(c *Ctx) {
 				// an attempt: one trip around the retry loop, or one call of the helper that makes the attempt
 				if ev.Kind == core.KLoop || (ev.Kind == core.KEnter && ev.Inner != nil && ev.Inner.Fn != nil) {
 					iter = i
-					linked, readNext = false, false
+				}
+				if ev.Kind == core.KHavoc && loaded != nil {
+					// the summary of the trips beyond the unroll bound: they did what the walked trips did
+					loadIdx, linkIdx, nextIdx = i, i+1, i+1
 				}
 				if ev.Kind == core.KAssign && !ev.FieldInit && ev.RetEv != nil {
 					if v := identVar(ev.Lhs, ev.Frame); v != nil && !v.IsField() {
@@ -1068,23 +1144,32 @@ func runGqueue(c *Ctx) {
 					if call, ok := unparen(ev.Rhs).(*ast.CallExpr); ok {
 						if sel, ok := unparen(call.Fun).(*ast.SelectorExpr); ok && sel.Sel.Name == "Load" {
 							if fv := fieldVar(sel.X, ev.Frame); fv != nil && core.FieldName(fv) == "cqueue.AtomicLIFO.top" {
-								loaded, loadIter = identVar(ev.Lhs, ev.Frame), iter
+								loaded, loadIdx = identVar(ev.Lhs, ev.Frame), i
 							}
 						}
 					}
 					if ev.Var != nil && core.FieldName(ev.Var) == "cqueue.atomicLIFONode.next" {
-						ok := loaded != nil && identVar(ev.Rhs, ev.Frame) == loaded && loadIter == iter && iter >= 0
-						linked = ok
-						a.note("R10", name+"/link-to-loaded-top", ev.Pos, !ok, "the new node is linked to the top loaded in the same iteration", "the new node's next is not set from the top loaded in this iteration", p)
+						ok := loaded != nil && identVar(ev.Rhs, ev.Frame) == loaded && loadIdx > lastCas
+						if ok {
+							linkIdx = i
+						}
+						a.note("R10", name+"/link-to-loaded-top", ev.Pos, !ok, "the new node is linked to the top loaded for this attempt", "the new node's next is not set from the top loaded for this attempt", p)
 						a.note("R10", name+"/no-write-after-publish", ev.Pos, casOK, "node fields are not written after a successful CAS", "a node field is written after the node was published by a successful CAS", p)
 					}
 					if sel, ok := unparen(ev.Rhs).(*ast.SelectorExpr); ok && sel.Sel.Name == "next" && loaded != nil && identVar(sel.X, ev.Frame) == loaded {
-						readNext = loadIter == iter
+						nextIdx = i
 					}
 				}
 				if isAtomicCall(ev, "CompareAndSwap") && len(ev.Call.Args) == 2 {
 					old := identVar(ev.Call.Args[0], ev.Frame)
-					ok := old != nil && old == loaded && loadIter == iter && iter >= 0
+					ok := old != nil && old == loaded && loadIdx > lastCas
+					linked := linkIdx > loadIdx
+					readNext := nextIdx > loadIdx
+					// … or the next pointer is read in the CAS argument itself: CompareAndSwap(oldTop, oldTop.next)
+					if sel, isSel := unparen(ev.Call.Args[1]).(*ast.SelectorExpr); isSel && sel.Sel.Name == "next" && loaded != nil && identVar(sel.X, ev.Frame) == loaded {
+						readNext = true
+					}
+					lastCas = i
 					a.note("R10", name+"/cas-on-fresh-load", ev.Pos, !ok, "the CAS compares against the value loaded in the same iteration", "the CAS compares against a value that was not loaded from top in this iteration (a stale top): concurrent pushes/pops between the load and the CAS are overwritten", p)
 					if fn == "Push" {
 						a.note("R10", name+"/linked-before-cas", ev.Pos, !linked, "the node is (re)linked in every iteration before the CAS", "the CAS is attempted in an iteration that did not link the new node to the freshly loaded top: after a failed attempt the node still points at the stale top and the elements pushed in between are lost", p)
@@ -1187,6 +1272,7 @@ func runGqueue(c *Ctx) {
 			firstWrite := len(p.Events)
 			freshLocal := map[*types.Var]bool{}
 			fromList := map[*types.Var]bool{}
+			slotOf := map[*types.Var]string{} // local pointer -> the link field it points to
 			for i, ev := range p.Events {
 				if ev.Kind != core.KAssign || ev.FieldInit {
 					continue
@@ -1216,8 +1302,30 @@ func runGqueue(c *Ctx) {
 						}
 					}
 				}
+				// a pointer to one of the link fields (slot := &l.head … *slot = elem) writes that field
+				if lv := identVar(ev.Lhs, ev.Frame); lv != nil && !lv.IsField() && ev.Rhs != nil && ev.RhsIdx < 0 {
+					delete(slotOf, lv)
+					if u, ok := unparen(ev.Rhs).(*ast.UnaryExpr); ok && u.Op == token.AND {
+						if fv := fieldVar(u.X, ev.Frame); fv != nil {
+							slotOf[lv] = core.FieldName(fv)
+						}
+					}
+				}
+				target := ""
+				if se, ok := unparen(ev.Lhs).(*ast.StarExpr); ok {
+					if pv := identVar(se.X, ev.Frame); pv != nil {
+						target = slotOf[pv]
+					}
+					if target != "" && ev.Rhs != nil && ev.RhsIdx < 0 {
+						if rv := identVar(ev.Rhs, ev.Frame); rv != nil && !rv.IsField() {
+							a.note("R10", name+"/linked-element-fresh-or-listed", ev.Pos, !(freshLocal[rv] || fromList[rv]),
+								"an element linked into the list is freshly allocated or already part of it",
+								"the element "+rv.Name()+" linked into the list is neither allocated on this path nor read from the list", p)
+						}
+					}
+				}
 				for _, f := range []string{headF, tailF} {
-					if !assignsField(ev, f, "") {
+					if !assignsField(ev, f, "") && target != f {
 						continue
 					}
 					if i < firstWrite {
